@@ -140,7 +140,7 @@ def judge_session(ctx, sc, rr, model_res=None, what="delay"):
     if res.get("stuck"):
         ctx.violation(dict(kind="stuck", blocked=stuck_sig(res.get("stuck_detail", []))),
                       dict(scenario=sc, where=what, stuck_detail=res.get("stuck_detail"), results=res["results"],
-                           last_events=res["events"][-12:]))
+                           last_events=(res.get("events") or [])[-12:]))
     return res
 
 
@@ -309,6 +309,22 @@ def run(ctx):
         else:
             ctx.evaluations += 1
         add_session(ctx, sessions, sc, out)
+    # ---------------------------------------------------------------- 3. the legacy v1 framing
+    # serial calls against a minimal v1 plugin (legacy work-done without step_id, debug logs of every shape), every
+    # other caller passing a signalsToStep channel that it closes once its call is back (v1 has no signals: nothing may
+    # be left running or counted for it), then Close: every call returns once, Close returns, nothing crashes
+    v1 = []
+    for i in range(8 if thorough else 4):
+        runs = [dict(id="r%d" % (k + 1), beh="ok", echo=1 + (i + k) % 9, sig=bool((i + k) % 2)) for k in range(4)]
+        v1.append(dict(id="v1/%d" % i, mode="v1echo", cap=i % 3, frag=bool(i % 2), seed=ctx.seed * 91 + i, runs=runs, v1_legacy=bool(i % 2)))
+    for sc, rr in zip(v1, A.run_driver(ctx, v1, label="c06v1")):
+        out = judge_session(ctx, sc, rr, what="v1 session")
+        if out is not None:
+            ctx.count(sc["id"])
+            for rid, e in out["results"].items():
+                if not out.get("stuck") and e["returns"] != 1:
+                    ctx.violation(dict(kind="returns", n=min(e["returns"], 2), framing="v1"), dict(scenario=sc, results=out["results"]))
+    ctx.extra["v1_sessions"] = len(v1)
     # ---------------------------------------------------------------- 3a. signals emitted BY the plugin
     # the SDK's own server never emits signals, so "signal traffic in both directions" is exercised against a
     # scripted, correctly behaving peer (mode "client" of the driver): emitted signals for runs with and without a
@@ -331,6 +347,14 @@ def run(ctx):
         [E("r1"), R("r1"), E("r2"), N("r1"), R("r2"), E("r3"), R("r3"), dict(op="close")],
         [E("r1"), E("r2"), N("r3"), N("r2"), R("r1"), N("r1"), N(""), R("r2"), dict(op="close")],
         [E("r1", True), N("r1"), S("r1"), R("r1"), N("r1"), E("r2"), N("zz"), R("r2", "err"), E("r3"), N("r2"), R("r3"), dict(op="close")],
+    ]
+    # debug logs of every shape in the work-done (the SDK's own server sends none; other SDKs do): line feeds, CRLF, a
+    # progress bar redrawn with bare carriage returns, only line ends, a long log without a final line end - the
+    # result is delivered whatever the log looks like, also with other calls pending
+    L = lambda r, logs: dict(op="reply", run=r, kind="ok", logs=logs)
+    emit_ops += [
+        [E("r1"), L("r1", "lf"), E("r2"), L("r2", "crlf"), E("r3"), L("r3", "cr"), dict(op="close")],
+        [E("r1"), E("r2"), E("r3"), L("r2", "cr"), L("r1", "blank"), L("r3", "long"), dict(op="close")],
     ]
     esc = [dict(id="emit/%d" % i, mode="client", ops=o) for i, o in enumerate(emit_ops)]
     esess = []
